@@ -2,7 +2,8 @@ import FV.Model.Geom
 /-
   Executable model of `frame/allocation/allocation.py` (class `Allocation`: constructor checks,
   `refine` / `_split_allocation`, `must_be_refined`, `uniform_refinement_depth`, `griddify`,
-  `area`, `center`) and of `gather_boundaries` in `frame/geometry/geometry.py`.
+  `area`, `center`, `num_rectangles`, `num_modules`, `allocation_rectangle`, `allocation_module`, `check_compatible`,
+  `max_refinement_depth`, `bounding_box`) and of `gather_boundaries` in `frame/geometry/geometry.py`.
 
   * Python `assert` / exceptions are `Except AErr`; list indexing is `Option`-valued.
   * The class-wide tolerances `Rectangle._distance_epsilon / _area_epsilon` are threaded explicitly
@@ -200,6 +201,36 @@ def Allocation.areaOf (a : Allocation α) (m : String) : Option α := (a.stats.l
 /-- `center(m)` for a module name. -/
 def Allocation.centerOf (a : Allocation α) (m : String) : Option (α × α) := (a.stats.lookup m).map (·.2)
 
+/-- `num_rectangles`. -/
+def Allocation.numRectangles (a : Allocation α) : Nat := a.cells.length
+
+/-- `num_modules` = `len(self._module2rect)`: the number of distinct module names listed by the cells. -/
+def Allocation.numModules (a : Allocation α) : Nat := (modules a.cells).length
+
+/-- `allocation_rectangle(i)`: `assert i < self.num_rectangles; return self._allocations[i]` — Python list indexing, so a
+    negative `i` counts from the end (`-1` is the last cell) and `i < -n` raises `IndexError`. -/
+def Allocation.allocationRectangle (a : Allocation α) (i : Int) : Except AErr (Cell α) :=
+  let n : Int := a.cells.length
+  if ¬ (i < n) then .error .assertion
+  else if i < -n then .error .index
+  else
+    match a.cells[(if i < 0 then n + i else i).toNat]? with
+    | some c => .ok c
+    | none => .error .index
+
+/-- `_module2rect[m]` with the rectangle indices (`ModuleAlloc(rect_index, area_ratio)`), in cell order. -/
+def moduleAllocs (m : String) (cells : List (Cell α)) : List (Nat × α) :=
+  cells.zipIdx.filterMap fun (c, i) => (c.alloc.lookup m).map fun occ => (i, occ)
+
+/-- `allocation_module(m)` (`KeyError` for a name no cell lists). -/
+def Allocation.allocationModule (a : Allocation α) (m : String) : Except AErr (List (Nat × α)) :=
+  if (modules a.cells).contains m then .ok (moduleAllocs m a.cells) else .error .key
+
+/-- `check_compatible(netlist)`: the SET of module names of the netlist equals the set of names listed by the cells
+    (`names` = the netlist's module names, in any order, repetitions allowed). -/
+def Allocation.checkCompatible (a : Allocation α) (names : List String) : Bool :=
+  names.all (fun n => (modules a.cells).contains n) && (modules a.cells).all (fun m => names.contains m)
+
 @[inline] def pyAbs (x : α) : α := if x < Rect.zero then -x else x
 
 /-- CPython ≥ 3.12 `sum()` over floats: Neumaier compensated summation. -/
@@ -274,6 +305,12 @@ def maxDepth (cells : List (Cell α)) : Nat := cells.foldl (fun m c => max m c.d
 def minDepth : List (Cell α) → Nat
   | [] => 0
   | c :: cs => cs.foldl (fun m d => min m d.depth) c.depth
+
+/-- `max_refinement_depth()` (`max()` of an empty sequence raises `ValueError`). -/
+def Allocation.maxRefinementDepth (a : Allocation α) : Except AErr Nat :=
+  match a.cells with
+  | [] => .error .value
+  | _ => .ok (maxDepth a.cells)
 
 def uniformCells (cells : List (Cell α)) : Except AErr (List (Cell α)) :=
   let mx := maxDepth cells
@@ -378,7 +415,7 @@ def gridFuel (xs ys : List α) (cells : List (Cell α)) : Nat :=
 
 /-- `griddify()` (repaired: the two sweeps are repeated until no rectangle is cut any more; the cut lines are gathered
     once, from the original cells). -/
-def griddifyNew (env : Env α) (st : Eps α) (a : Allocation α) : Except AErr (Allocation α × Eps α) :=
+def griddify (env : Env α) (st : Eps α) (a : Allocation α) : Except AErr (Allocation α × Eps α) :=
   match gatherBoundaries st (a.cells.map (·.rect)) with
   | .error e => .error e
   | .ok (xs, ys) =>
@@ -395,10 +432,6 @@ def griddifyOnce (env : Env α) (st : Eps α) (a : Allocation α) : Except AErr 
     match griddifyCells env.rho xs ys a.cells with
     | .error e => .error e
     | .ok q => mkAllocation env st (q.map Cell.toRaw)
-
-/-- TEMPORARY (switched at the end of the round): the old body. -/
-def griddify (env : Env α) (st : Eps α) (a : Allocation α) : Except AErr (Allocation α × Eps α) :=
-  griddifyOnce env st a
 
 /-! ### operation histories -/
 
@@ -424,5 +457,21 @@ def applyOps (env : Env α) : List (Op α) → Eps α → Allocation α → Exce
 def Allocation.markFixed (a : Allocation α) (idxs : List Nat) : Allocation α :=
   { a with cells := a.cells.zipIdx.map fun (c, i) =>
       if idxs.contains i then { c with rect := { c.rect with fixed := true } } else c }
+
+/-- one step of a history on an `Allocation` object: a refinement operation (the object is replaced by the result), or
+    cells flagged fixed IN PLACE (`a.allocations[i].rect.fixed = True`, as `_detect_fixed_rectangles` and the repository's
+    tests do) — the object stays the same. -/
+inductive HStep (α : Type) where
+  | op (o : Op α)
+  | fix (idxs : List Nat)
+  deriving Repr, Inhabited
+
+def applyHist (env : Env α) : List (HStep α) → Eps α → Allocation α → Except AErr (Allocation α × Eps α)
+  | [], st, a => .ok (a, st)
+  | .op o :: rest, st, a =>
+    match applyOp env st a o with
+    | .error e => .error e
+    | .ok (a', st') => applyHist env rest st' a'
+  | .fix idxs :: rest, st, a => applyHist env rest st (a.markFixed idxs)
 
 end FV.Alloc
